@@ -13,7 +13,7 @@
 // Input (stdin), one JSON case per line:
 //   {"id":N, "archs":[{"locals":[{"init":z}|{"map":[[k,v],...]}], "labels":[{"tries":[{"ops":[OP...],"abort":bool}]}]}],
 //    "shared":[z...], "nchans":k, "mboxes":[owner...], "sched":[a...], "mbox_timeout_ms":150}
-//   OP = ["R",KIND,id,[idx...]] | ["W",KIND,id,[idx...],["c",z]|["l",d]]   KIND = loc|shr|in|out|box|pc
+//   OP = ["R",KIND,id,[idx...]] | ["W",KIND,id,[idx...],["c",z]|["l",d]]   KIND = loc|shr|in|out|box
 // Output: one JSON line per case (see type result).
 package main
 
@@ -102,6 +102,9 @@ type result struct {
 	Finished []string        `json:"finished"` // per arch: "" (halted by harness) | "done" | "crash" | error text
 	Errs     []string        `json:"errs"`
 	VClocks  bool            `json:"vclocks"`
+	// per schedule entry: the implementation chose the failure branch where it selects against a timer or talks to the
+	// network (op returned ErrCriticalSectionAborted; or the body returned Goto and the attempt was nevertheless aborted)
+	Flags []bool `json:"flags"`
 }
 
 var errHalt = errors.New("verif: halted by harness")
@@ -208,7 +211,8 @@ type archRun struct {
 	stepCh   chan bool     // true = go on, false = halt
 	parkCh   chan struct{} // body parked (or Run returned)
 	finished string
-	done     bool
+	done     bool // Run returned
+	atDone   bool // reached the Done section: parked there until the case is over, so that its resources stay open
 	ctx      *distsys.MPCalContext
 	rec      *recorder
 	// set by the body for the driver
@@ -302,8 +306,6 @@ func (ar *archRun) handle(iface distsys.ArchetypeInterface, o opDesc) (distsys.A
 	switch o.kind {
 	case "loc":
 		return iface.RequireArchetypeResource(fmt.Sprintf("%s.v%d", ar.name, o.id)), idx, nil
-	case "pc":
-		return iface.RequireArchetypeResource(".pc"), idx, nil
 	case "shr":
 		h, err := iface.RequireArchetypeResourceRef(fmt.Sprintf("%s.s%d", ar.name, o.id))
 		return h, idx, err
@@ -474,7 +476,13 @@ func runCase(k kase) (res result) {
 		for l := range ar.spec.Labels {
 			secs = append(secs, distsys.MPCalCriticalSection{Name: lblName(i, l, len(ar.spec.Labels)), Body: ar.body(l)})
 		}
-		secs = append(secs, distsys.MPCalCriticalSection{Name: fmt.Sprintf("A%d.Done", i), Body: func(distsys.ArchetypeInterface) error { return distsys.ErrDone }})
+		secs = append(secs, distsys.MPCalCriticalSection{Name: fmt.Sprintf("A%d.Done", i), Body: func(distsys.ArchetypeInterface) error {
+			// Run would return now and close every resource (listeners included); stay until the case is over
+			ar.atDone = true
+			ar.parkCh <- struct{}{}
+			<-ar.stepCh
+			return distsys.ErrDone
+		}})
 		var refs []string
 		var cfg []distsys.MPCalContextConfigFn
 		for j, m := range mgrs {
@@ -589,14 +597,17 @@ func runCase(k kase) (res result) {
 		}
 	}
 	if !hung {
-		for _, a := range k.Sched {
+		res.Flags = make([]bool, len(k.Sched))
+		for si, a := range k.Sched {
 			if a < 0 || a >= na {
 				continue
 			}
 			ar := ars[a]
-			if ar.done {
+			if ar.done || ar.atDone {
 				continue
 			}
+			wasAtEnd := ar.atEnd
+			nAtt := len(ar.perf)
 			// delivery of a committed mailbox record is asynchronous (the receiver acks, then enqueues):
 			// sample the queue lengths before a step that may commit, wait for them afterwards
 			var before map[int]int
@@ -615,6 +626,16 @@ func runCase(k kase) (res result) {
 			if !wait(ar) {
 				hung = true
 				break
+			}
+			if nAtt > 0 {
+				att := ar.perf[nAtt-1] // the attempt that was running when the step began
+				if wasAtEnd {
+					ar.rec.mu.Lock()
+					res.Flags[si] = att.End == "commit" && len(ar.rec.retained) > nEv && ar.rec.retained[nEv].IsAbort
+					ar.rec.mu.Unlock()
+				} else if len(att.Ops) > 0 {
+					res.Flags[si] = att.Ops[len(att.Ops)-1].Outc == "abort"
+				}
 			}
 			if before != nil && len(ar.rec.copies) > nEv && !ar.rec.retained[nEv].IsAbort {
 				deadline := time.Now().Add(10 * time.Second)
@@ -655,9 +676,12 @@ func runCase(k kase) (res result) {
 		ar.rec.mu.Unlock()
 	}
 	for _, ar := range ars {
-		if ar.done {
+		switch {
+		case ar.done:
 			res.Finished = append(res.Finished, ar.finished)
-		} else {
+		case ar.atDone:
+			res.Finished = append(res.Finished, "done")
+		default:
 			res.Finished = append(res.Finished, "")
 		}
 	}
